@@ -22,7 +22,7 @@ class Ctx:
             self.kf = json.load(f)
 
     # ---- TLC + replay of its records on the real code
-    def tlc(self, mod, cfg, workers=8, timeout=1500, judge=None, min_records=1, simulate=None, depth=None, note=""):
+    def tlc(self, mod, cfg, workers=8, timeout=1500, judge=None, min_records=1, simulate=None, depth=None, note="", audit=None):
         r = vlib.run_tlc(mod, cfg, workers=workers, timeout=timeout, simulate=simulate, depth=depth,
                          seed=(self.seed if simulate else None))
         if not r["ok"]:
@@ -49,6 +49,8 @@ class Ctx:
             self.notes.append("drift (model != code) on %d records of %s/%s, e.g. %s" % (x["drift"], mod, cfg, (x.get("drift_samples") or [""])[0][:400]))
             if judge:
                 judge(self, drift_out)
+        if audit:   # (judge module, 1-in-N): a hash sample of ALL real results is judged with the Decl predicates
+            audit_sample(self, r["out"], audit[1], module=audit[0])
         shutil.rmtree(r["dir"], ignore_errors=True)
         return r, rp
 
@@ -781,6 +783,21 @@ def plan_C09(ctx):
     ctx.nontrivial = ctx.records
     ctx.need("generated name-addr values / lists executed on the real parsers", ctx.records, 50000)
 
+STRSIG_ALPHA = dict(hexdash=("AlHexDash", 9), b64=("AlB64", 9), b64b=("AlB64b", 8), ip=("AlIP", 9), ipd=("AlIPd", 9), blocks=("AlBlocks", 11),
+                    seps=("AlSeps", 9), other=("AlOther", 8), v6=("AlV6", 9))
+STRSIG_CLS = dict(cls1="AlCls1", cls2="AlCls2", cls3="AlCls3")
+def strsig_cfg(part, alpha=None, shorter=0):
+    """configuration of MC_StrSig: part cid / br over one of the alphabets (MaxLen = the alphabet's bound - shorter), or gen / msg"""
+    if part in ("gen", "msg"):
+        inv = "Emit" + (" ClassInv CallIDDeclInv" if part == "gen" else ""); al, n = "AlIP", 1; name = "strsig_%s.cfg" % part
+    elif part == "cls":
+        al, n = STRSIG_CLS[alpha], 9 - shorter; name = "strsig_cls_%s_%d.cfg" % (alpha, n); inv = "Emit ClassInv"
+    else:
+        al, n = STRSIG_ALPHA[alpha]; n -= shorter + (1 if part == "br" else 0); name = "strsig_%s_%s_%d.cfg" % (part, alpha, n)
+        inv = "Emit ClassInv " + ("CallIDDeclInv" if part == "cid" else "BranchDeclInv")
+    return (name, "SPECIFICATION Spec\nCONSTANTS\n  OffsMod = 65536\n  Part = \"%s\"\n  Alphabet <- %s\n  MaxLen = %d\nINVARIANTS %s\nCHECK_DEADLOCK FALSE\n" % (part, al, n, inv))
+def sig_judge(ctx, f): ctx.judge("Judge_Sig", f, what="the string signature does not say what the text contains (StrSig.tla: CallIDDecl / BranchDecl / IPPosDecl)")
+
 def plan_C19(ctx):
     ctx.extra["rule"] = ("MsgSig.tla: SigHdrModel = what the property demands of the header part (ordered first occurrences of the fingerprinted "
         "headers, Contact only for INVITE, compact bit, <= 8 entries, trunc-or-same for small arrays), checked by TLC against the "
@@ -791,6 +808,21 @@ def plan_C19(ctx):
     slices = ["perm", "fillers", "vals", "repeat", "caps8", "reply", "chunk", "probe", "viabr", "viaq", "names"] + ([] if ctx.quick else ["perm8", "perm8r", "caps"])
     for sl in slices:
         ctx.tlc("MC_GenSig", "MC_GenSig_%s.cfg" % sl, workers=8, min_records=90)
+    # the string part: "the character classes of Call-ID, From-tag and first-Via branch" (StrSig.tla)
+    ctx.extra["rule_strings"] = ("StrSig.tla transcribes getStrCharsSig / GetCallIDSig / GetViaBrSig; TLC checks on it that the signature is a function "
+        "of the character-class sequence (ClassInv) and says what the text contains (CallIDDecl, BranchDecl: reserved-character flags, IP "
+        "position, length classes); every string over 9 small alphabets (Call-ID) / 6 (branch, bare and after the cookie, with another "
+        "parameter in front), structured Call-IDs and whole requests are executed on the real functions: drift, REAL results of one class "
+        "group must be identical, drifted and sampled real results are judged by TLC (Judge_Sig).")
+    sh = 1 if ctx.quick else 0
+    ctx.tlc("MC_StrSig", strsig_cfg("gen"), judge=sig_judge, audit=("Judge_Sig", 7), min_records=1000)
+    ctx.tlc("MC_StrSig", strsig_cfg("msg"), min_records=1000)
+    for al in STRSIG_ALPHA:
+        ctx.tlc("MC_StrSig", strsig_cfg("cid", al, sh), judge=sig_judge, audit=("Judge_Sig", 1999), min_records=10000, timeout=3000)
+    for al in STRSIG_CLS:
+        ctx.tlc("MC_StrSig", strsig_cfg("cls", al, sh), min_records=50000, timeout=3000)
+    for al in ("hexdash", "b64", "b64b", "blocks", "seps", "other"):
+        ctx.tlc("MC_StrSig", strsig_cfg("br", al, sh + (1 if ctx.quick else 0)), judge=sig_judge, audit=("Judge_Sig", 1999), min_records=5000, timeout=3000)
     ctx.nontrivial = ctx.records
     ctx.need("generated requests with signatures compared", ctx.records, 50000)
 
@@ -895,6 +927,12 @@ def plan_C20(ctx):
             ctx.judge("Judge_IP4", drift_out)
         if c in ("b4", "bz", "gen"): audit_sample(ctx, r["out"], 997 if ctx.quick else 199, module="Judge_IP4")
         shutil.rmtree(r["dir"], ignore_errors=True)
+    # "the call-id signature classifies the IP position from the search result": StrSig.tla (CallIDSig over ContainsIP4/6),
+    # IPPosDecl on the model (part of CallIDDeclInv); drifted + sampled REAL results judged by TLC with IPPosDecl
+    ipj = lambda c, f: c.judge("Judge_Sig", f, what="IP position flag of the call-id signature does not match any dotted quad of the text (StrSig.tla: IPPosDecl)")
+    ctx.tlc("MC_StrSig", strsig_cfg("gen"), judge=ipj, audit=("Judge_Sig", 5), min_records=1000)
+    for al in ("ip", "ipd"):
+        ctx.tlc("MC_StrSig", strsig_cfg("cid", al, 1 if ctx.quick else 0), judge=ipj, audit=("Judge_Sig", 997), min_records=10000, timeout=3000)
     ctx.nontrivial = ctx.records
     ctx.need("strings executed on the real IPv4 functions", ctx.records, 100000)
 
